@@ -266,6 +266,16 @@ def _highD(ctx, p, rng):
             f()
         except Exception:
             ctx.skip('sut-raises:highD')
+    # functions expanded from their closed-form derivatives, close to the border of their domain: derivatives of high order
+    # overflow there (psi^(40)(1e-6) ~ 1e286), which is the business of the high coefficients only
+    near = np.zeros((D, 1, 2)); near[0, 0] = [1e-6, 0.05]; near[1:] = 0.5 * rng.normal(size=(D - 1, 1, 2))
+    for f in (lambda: algopy.special.psi(UTPM(near.copy())), lambda: algopy.special.gammaln(UTPM(near.copy())), lambda: algopy.special.polygamma(1, UTPM(near.copy())),
+              lambda: algopy.special.gammaln(UTPM(near.astype(np.float32)))):
+        try:
+            with np.errstate(all='ignore'):
+                f()
+        except Exception:
+            ctx.skip('sut-raises:highD')
     if sum(ctx.violation_count.values()) == before:
         ctx.ok('highD', ('highD', D))
 
